@@ -103,9 +103,19 @@ func VerifC01ParseAbsDots() {
 	compareParse(c.pre+w+c.suf, "", false)
 }
 
+// driveCtxs: a drive-letter-shaped segment already in place (first or later segment, file and not file),
+// so that the window only has to supply what follows it (the file-only, first-segment-only quirks).
+var driveCtxs = []ctx{{"http://h/c:/", ""}, {"http://h/c:", "/x"}, {"a://h/C|/", ""}, {"file:///d/C:/", "x"}, {"file://h/C:", ""}}
+
 // VerifC01ParseAbsPath: path alphabet a . / \ % 2 e | : ? # in path contexts (special, non-special, file).
 func VerifC01ParseAbsPath() {
-	c := pathCtxs[vnd.Pick(len(pathCtxs))]
+	all := len(pathCtxs) + len(driveCtxs)
+	var c ctx
+	if ci := vnd.Pick(all); ci < len(pathCtxs) {
+		c = pathCtxs[ci]
+	} else {
+		c = driveCtxs[ci-len(pathCtxs)]
+	}
 	w := vnd.StrOver(vnd.Len(vnd.Param("C01.KPath", 4, 5)), "a./\\%2e|:?#")
 	compareParse(c.pre+w+c.suf, "", false)
 }
